@@ -388,6 +388,9 @@ class EngineBase:
             f = self.recfuncs.setdefault(('$any_tuple', len(toks)), z3.Function('any_tuple_%d' % len(toks), *([I] * len(toks) + [I])))
             return SVal(KAny, [f(*toks) if toks else z3.IntVal(-1)])
         v = ops.lift(v)
+        from core import KOpt
+        if isinstance(v, SVal) and isinstance(v.kind, KOpt) and v.kind.inner.name == 'Any':
+            return SVal(KAny, [z3.If(v.t[0], z3.IntVal(0), v.t[1])])       # None is token 0
         if isinstance(v, SVal) and len(v.t) == 1:
             srt = v.z.sort()
             if srt == I:
